@@ -1,14 +1,19 @@
 mod c01;
 mod c01model;
+mod c02;
 mod c17;
 mod c18;
+mod c19;
 mod decode;
 mod explore;
 mod fsmon;
+mod golden;
 mod interpose;
 mod job;
 mod known;
 mod lab;
+mod prod;
+mod refq;
 mod sys;
 
 fn main() {
@@ -23,6 +28,7 @@ fn main() {
             std::fs::write(format!("{path}.out"), out).expect("write result");
             0
         }
+        Some("c19child") => c19::child(&args[2], &args[3]),
         Some("parse1") => c17::parse1(&args[2]),
         Some("selftest") => match interpose::self_test(std::path::Path::new(&args[2])) {
             Ok(()) => {
@@ -39,13 +45,37 @@ fn main() {
             let tier = lab::tier();
             match id {
                 "C01" => c01::check(&tier),
+                "C02" => c02::check(&tier),
                 "C17" => c17::check(&tier),
                 "C18" => c18::check(&tier),
+                "C19" => c19::check(&tier),
                 _ => {
                     eprintln!("no such check {id}");
                     2
                 }
             }
+        }
+        Some("scenario") => {
+            // replay helper: run one product-mode scenario file and print the key list of every reply
+            let sc: prod::Scenario = serde_json::from_str(&std::fs::read_to_string(&args[2]).expect("scenario file")).expect("scenario json");
+            let scratch = lab::Scratch::new(&format!("scen-{}", std::process::id()));
+            match prod::run(&scratch.dir, &sc) {
+                Ok(out) => {
+                    for (q, r) in sc.queries.iter().zip(out.replies.iter()) {
+                        let ids: Vec<serde_json::Value> = r.rows.iter().map(|row| row.get("id").or(row.get("k")).cloned().unwrap_or(serde_json::Value::Null)).collect();
+                        println!("{q} -> status {} rows {} keys {:?} {}", r.status, r.rows.len(), ids, r.failure.clone().unwrap_or_default());
+                    }
+                    0
+                }
+                Err(e) => {
+                    eprintln!("{e}");
+                    2
+                }
+            }
+        }
+        Some("c02raw") => {
+            c02::raw(&lab::tier());
+            0
         }
         Some("c01raw") => {
             let depth: usize = args[2].parse().unwrap();
